@@ -307,6 +307,7 @@ def body(led):
     from . import py_panel
     py_panel.check_calc_kT_fint(led)
     py_panel.check_one_laminate(led)
+    py_panel.check_calc_k0_numeric(led)
     # assemblies (the property names them): tangent and internal force are the sums of the panels' own terms at their ranges plus the
     # connection matrix / connection matrix times the state (same obligations as in C13)
     from . import py_assembly as A
